@@ -560,6 +560,11 @@ Proof.
   apply N. apply Q2. exact I.
 Qed.
 
+(* the modelled finalizers register nothing, so the first sweep of GC:destroy leaves nothing and
+   the loop stops there *)
+Lemma destroy_loop_one n g : unmarked_in (items g) -> finq g = [] -> destroy_loop (S n) g = sweep g.
+Proof. intros U F. cbn [destroy_loop]. now rewrite (sweep_all_unmarked_empty g U F). Qed.
+
 (* by normal exit (no assert fired) every finalizer registration has been called exactly once,
    or was dropped exactly once by an explicit gc:unregister(ptr): never both, never neither *)
 Lemma finalize_exactly_once_at_exit h k :
@@ -571,6 +576,9 @@ Proof.
   set (g0 := run h gc_init) in *.
   unfold destroy in *.
   set (g1 := set_collecting true g0) in *.
+  assert (DL : destroy_loop DESTROY_SWEEPS g1 = sweep g1).
+  { pose proof destroy_resweeps as DR. destruct DESTROY_SWEEPS as [|n]; [lia|]. apply destroy_loop_one; apply I. }
+  rewrite DL in *.
   assert (X : ex_tot g1 (sweep g1)).
   { apply ex_sweep; [apply I | exact F | apply I]. }
   cbn [err set_items set_roots set_collecting] in E.
